@@ -51,10 +51,44 @@ pub fn instantiate_type_generic_full(
     }
 }
 
+/// How deep instantiations may nest. Self-referential generic aliases and classes
+/// (`---@alias G<T> keyof G<T>`, `---@class Box<T>: T` with a `keyof Box<..>` field) make
+/// instantiation re-enter itself through alias origins and member lookup without end; beyond
+/// this depth the type is left as it is instead of overflowing the stack.
+const MAX_INSTANTIATE_DEPTH: u32 = 48;
+
+thread_local! {
+    static INSTANTIATE_DEPTH: std::cell::Cell<u32> = const { std::cell::Cell::new(0) };
+}
+
+struct InstantiateDepthGuard;
+
+impl InstantiateDepthGuard {
+    fn enter() -> Option<Self> {
+        INSTANTIATE_DEPTH.with(|depth| {
+            if depth.get() >= MAX_INSTANTIATE_DEPTH {
+                None
+            } else {
+                depth.set(depth.get() + 1);
+                Some(InstantiateDepthGuard)
+            }
+        })
+    }
+}
+
+impl Drop for InstantiateDepthGuard {
+    fn drop(&mut self) {
+        INSTANTIATE_DEPTH.with(|depth| depth.set(depth.get().saturating_sub(1)));
+    }
+}
+
 pub(super) fn instantiate_type_generic_inner(
     context: &GenericInstantiateContext,
     ty: &LuaType,
 ) -> LuaType {
+    let Some(_depth_guard) = InstantiateDepthGuard::enter() else {
+        return ty.clone();
+    };
     match ty {
         LuaType::Array(array_type) => instantiate_array(context, array_type.get_base()),
         LuaType::Tuple(tuple) => instantiate_tuple(context, tuple),
